@@ -101,7 +101,7 @@ def all_matches(mods, pattern, source):
 def run_subn(mods, pattern, repl, source, count):
     """pattern_matching.subn with every intermediate product recorded."""
     core, processing, pm = mods["core"], mods["processing"], mods["pattern_matching"]
-    rec = {"items": [], "sched": None, "chain": [], "valid": {}, "minws_changed": False, "error": None}
+    rec = {"items": [], "sched": None, "chain": [], "valid": {}, "equiv": {}, "minws_changed": False, "error": None}
 
     def recording(func):
         import functools
@@ -139,6 +139,14 @@ def run_subn(mods, pattern, repl, source, count):
             return r
         return is_valid_python
 
+    def mk_equiv(orig):
+        def _sources_equivalent(a, b):
+            r = orig(a, b)
+            if isinstance(a, str) and isinstance(b, str):
+                rec["equiv"][(a, b)] = bool(r)
+            return r
+        return _sources_equivalent
+
     def mk_minws(orig):
         def minimize_whitespace_line_differences(src, new):
             out = orig(src, new)
@@ -151,6 +159,8 @@ def run_subn(mods, pattern, repl, source, count):
         ins.wrap(processing, "_schedule_rewrites", mk_schedule)
         ins.wrap(processing, "_do_rewrite", mk_do_rewrite)
         ins.wrap(core, "is_valid_python", mk_valid)
+        if hasattr(processing, "_sources_equivalent"):
+            ins.wrap(processing, "_sources_equivalent", mk_equiv)
         ins.wrap(processing, "minimize_whitespace_line_differences", mk_minws)
         try:
             # count == 0 is the documented default: exercised through the default argument
@@ -201,16 +211,37 @@ def ignore_line_ranges(source):
     return sorted(res)
 
 
-def regex_ignore_line_ranges(source):
-    """What core.has_ignore_comment looks at ("\\n"-separated text, regex on the raw line): used for the
-    correspondence with the model, which mirrors the implementation."""
-    res, pos = [], 0
-    for line in source.split("\n"):
-        end = min(len(source), pos + len(line) + 1)
-        if pos < end and IGNORE_RE.search(line):
-            res.append((pos, end))
-        pos = end
-    return res
+def tokenizer_verdict(source):
+    """The model's `coms` input: zero-based numbers of the physical lines that carry a COMMENT token matching the
+    ignore regex, by CPython's tokenizer fed with the untranslated lines; None when it raises (the textual test
+    then decides).  Computed here, not taken from pyrefact."""
+    try:
+        return sorted({t.start[0] - 1 for t in tokenize.generate_tokens(io.StringIO(source, newline="").readline)
+                       if t.type == tokenize.COMMENT and IGNORE_RE.search(t.string)})
+    except (tokenize.TokenError, SyntaxError, ValueError):
+        return None
+
+
+def impl_ignore_line_ranges(mods, source):
+    """The physical lines for which the REAL core.has_ignore_comment answers True when asked about exactly that
+    line: what the model's ignore_lines (IgnoreModel.ignore_entries under the tokenizer's verdict) must equal."""
+    core = mods["core"]
+    return [(a, b) for (a, b, _) in physical_lines(source) if core.has_ignore_comment(source, core.Range(a, b))]
+
+
+def impl_ignore_probes(mods, source, max_lines=16):
+    """Answers of the REAL core.has_ignore_comment on probe ranges of every physical line: its first and last
+    character, the insertion points at its first column, before its terminator and at its end (for the last line
+    that is the end of the text).  The model's scheduler-side test (SchedModel.ignored on SubstModel.sched_ilines)
+    must give the same answers."""
+    core = mods["core"]
+    probes = {}
+    for (a, b, text) in physical_lines(source)[:max_lines]:
+        body_end = a + len(text.rstrip("\r\n"))
+        for r in ((a, a + 1), (b - 1, b), (a, a), (body_end, body_end), (b, b), (a, b)):
+            if r not in probes and 0 <= r[0] <= r[1] <= len(source):
+                probes[r] = bool(core.has_ignore_comment(source, core.Range(*r)))
+    return sorted(probes.items())
 
 
 def overlaps(a, b):
@@ -472,6 +503,18 @@ ATOMIC = (ast.Name, ast.Constant, ast.Call, ast.Attribute, ast.Subscript, ast.Li
           ast.ListComp, ast.SetComp, ast.DictComp, ast.GeneratorExp, ast.Tuple)
 
 
+def _can_lose_precedence(text) -> bool:
+    """Is the text an expression whose top node is an operator application (or anything we cannot classify)?"""
+    t = text.strip()
+    try:
+        node = ast.parse(t, mode="eval").body
+    except (SyntaxError, ValueError):
+        return True
+    if isinstance(node, ast.Tuple):
+        return not (t.startswith("(") and t.endswith(")"))
+    return not isinstance(node, ATOMIC)
+
+
 def _parenthesised_variants(mods, case):
     """None unless the output of sub() is exactly what pasting the unparenthesised texts at the
     expected matches gives (same tree; or the source when that text does not parse).  Otherwise
@@ -498,10 +541,14 @@ def _parenthesised_variants(mods, case):
             filled = re.sub(r"\{\{(\w+)\}\}", lambda m: fill(binds[m.group(1)]), repl)
             first, nl, rest = textwrap.dedent(filled).partition("\n")
             return first + nl + textwrap.indent(rest, " " * ind)
-        plain, par = placed(lambda t: t), placed(lambda t: "(" + t + ")")
+        # parentheses are put around texts that can lose to their context only: an atom (name, literal, call,
+        # display ...) has no precedence to lose -- a brace of a set display merging with the brace of an
+        # f-string field is not a precedence matter
+        plain, par = placed(lambda t: t), placed(lambda t: "(" + t + ")" if _can_lose_precedence(t) else t)
         text_p = text_p[:r[0]] + plain + text_p[r[1]:]
         text_a = text_a[:r[0]] + par + text_a[r[1]:]
-        text_b = text_b[:r[0]] + ("(" + par + ")" if isinstance(root, ast.expr) else par) + text_b[r[1]:]
+        whole = isinstance(root, ast.expr) and _can_lose_precedence(plain)
+        text_b = text_b[:r[0]] + ("(" + par + ")" if whole else par) + text_b[r[1]:]
 
     def d(t):
         try:
@@ -537,30 +584,8 @@ def sig_replacement_precedence_lost(mods, case) -> bool:
     return bool(v) and v[1] != v[0] and v[2] == v[0]
 
 
-SPLITLINES_EXTRA = re.compile("[\x0b\x0c\x1c\x1d\x1e\x85\u2028\u2029]|\r(?!\n)")
-
-
 def _expected(mods, case):
     return expected_applied(all_matches(mods, case["pattern"], case["source"]), case["source"], case["count"])
-
-
-def sig_line_separator_in_source(mods, case) -> bool:
-    """The source has a character at which str.splitlines splits but which is no line end for python
-    (form feed, U+2028, \x1c-\x1e, \x85, \v) or a lone carriage return: every line-based step
-    (has_ignore_comment, indentation of the matched line, rstrip per line) sees other lines."""
-    return bool(SPLITLINES_EXTRA.search(case["source"]))
-
-
-def sig_ignore_text_in_string(mods, case) -> bool:
-    """The ignore regex matches text of the source that is not a comment (inside a string literal) on a
-    line that an expected match touches."""
-    src = case["source"]
-    real = set(ignore_line_ranges(src))
-    for (a, b, t) in physical_lines(src):
-        if IGNORE_RE.search(t) and (a, b) not in real:
-            return True
-    # a string token spanning several lines whose content matches
-    return any(IGNORE_RE.search(src[a:b]) for (a, b) in regex_ignore_line_ranges(src) if (a, b) not in real)
 
 
 def sig_string_line_trailing_blank(mods, case) -> bool:
@@ -630,8 +655,6 @@ def sig_comment_ends_replacement(mods, case) -> bool:
 
 SIGS = {"binding_precedence_lost": sig_binding_precedence_lost,
         "replacement_precedence_lost": sig_replacement_precedence_lost,
-        "line_separator_in_source": sig_line_separator_in_source,
-        "ignore_text_in_string": sig_ignore_text_in_string,
         "string_line_trailing_blank": sig_string_line_trailing_blank,
         "fstring_debug_specifier": sig_fstring_debug_specifier,
         "elif_clause_matched": sig_elif_clause_matched,
@@ -1063,8 +1086,9 @@ def wrap_ranges(source, rec):
     return out
 
 
-def g_subn_case(case, ms, rec) -> str:
+def g_subn_case(case, ms, rec, mods=None) -> str:
     pat, repl, source, count = case
+    mods = mods or common.import_impl()
     yielded = dict(rec["items"]) if not rec["error"] else {}
     matches = glist([f"({g_range(rng)}, {g_binds(b)}, "
                      f"{glist([f'{i}%nat' for i in string_literal_lines(yielded.get(rng, '')) if i > 0])})"
@@ -1075,12 +1099,16 @@ def g_subn_case(case, ms, rec) -> str:
     else:
         items = "(Some " + glist([f"({g_range(r)}, {gtext(t)})" for (r, t) in rec["items"]]) + ")"
     sched = glist([f"({gz(g)}, {gz(t)}, {gz(s)}, {gz(e)}, {gtext(n)})" for (g, t, s, e, n) in rec["sched"]])
-    il = glist([g_range(r) for r in regex_ignore_line_ranges(source)])
+    il = glist([g_range(r) for r in impl_ignore_line_ranges(mods, source)])
+    coms = gopt(tokenizer_verdict(source), lambda cs: glist([f"{c}%nat" for c in cs]))
+    probes = glist([f"({g_range(r)}, {gbool(v)})" for r, v in impl_ignore_probes(mods, source)])
+    equiv = glist([f"({gtext(a)}, {gtext(b)}, {gbool(v)})" for (a, b), v in rec.get("equiv", {}).items()])
     n = rec["n"] if rec["n"] is not None else -1
     wraps = glist([g_range(r) for r in wrap_ranges(source, rec)])
     texts = {t for (_, _, a, b, t) in rec["sched"]} | {source[a:b] for (_, _, a, b, _) in rec["sched"]}
     mlstr = glist([gtext(t) for t in sorted(texts) if string_literal_lines(t)])
-    return (f"(mkSubn {gtext(source)} {gtext(repl)} {gz(count)} {matches} {valid} {wraps} {mlstr} {il} {items} "
+    return (f"(mkSubn {gtext(source)} {gtext(repl)} {gz(count)} {matches} {valid} {equiv} {wraps} {mlstr} {coms} {il} {probes} "
+            f"{items} "
             f"{sched} {gtext(rec['cand'])} {gz(n)})")
 
 
@@ -1350,9 +1378,6 @@ WITNESSES = {
     "F14-7": [("f()", "g()  # c", "y = f() + 1\n", 0)],
     "F14-8": [("x", "y", "f'{x=}'\n", 0)],
     "F14-9": [("if {{c}}:\n    {{b}}", "if not {{c}}:\n    {{b}}", "if a:\n    p()\nelif b:\n    q()\n", 0)],
-    "F14-17": [("x = 1", "x = 2", "x = 1 \x0c # pyrefact: ignore\n", 0),
-               ("x = 1", "x = 2\ny = 3", "if c:\r    x = 1\r", 0)],
-    "F14-18": [("f()", "g()", "s = \'\'\'\n# pyrefact: ignore\'\'\'; f()\n", 0)],
     "F14-19": [("x = {{a}}", "y = {{a}}", "x = \'\'\'a \nb\'\'\'\n", 0)],
 }
 
@@ -1664,7 +1689,7 @@ def check(run: common.Run):
             # text clause; these cases are judged by the property oracle only
             minws_cases.append(c)
             continue
-        rows.append(g_subn_case(c, ms, rec))
+        rows.append(g_subn_case(c, ms, rec, mods))
         kept.append((c, ms, rec))
         if subn_nontrivial(ms, rec):
             distinct.add(hash(c))
@@ -1777,7 +1802,7 @@ def check(run: common.Run):
             global PACKED
             PACKED = False
             try:
-                detail = decode_texts(model_subn_detail(wd, g_subn_case(c, ms, rec)))
+                detail = decode_texts(model_subn_detail(wd, g_subn_case(c, ms, rec, mods)))
             finally:
                 PACKED = True
             run.violation({"kind": "correspondence", "kernel": "K1+K13 SubstModel (subn / find_replace / "
@@ -1813,7 +1838,8 @@ def check(run: common.Run):
         cli_runs=n_cli,
         distinct_nontrivial=len(distinct) + g_nontrivial,
         rule=("subn correspondence: real pattern_matching.subn (instrumented: yielded items, schedule, text after "
-              "the _do_rewrite chain, returned count) vs SubstModel on (pattern, replacement, source, count); the "
+              "the last _do_rewrite(scheduled=True) call of _apply_rewrites, returned count; ignore lines = real "
+              "has_ignore_comment per physical line) vs SubstModel on (pattern, replacement, source, count); the "
               "matcher's matches (finditer order, ranges, unparsed bindings) and the observed is_valid_python "
               "answers are inputs of the model. Fixed family = 15 patterns (8 expression, 7 statement / statement "
               "sequence) x 10-14 replacements (wildcards used 0/1/2x, swapped, {{root}}, multi-line, empty, "
@@ -1845,15 +1871,20 @@ def check(run: common.Run):
             "matches are inputs of the model (properties C12 / C13)",
             "tokenisation of the expression fragment (regex tokenizer of harness/c14.py) and the tree <-> ast "
             "converters e_ast / ast_e",
-            "core.is_valid_python is an oracle of the model: its observed answers are replayed (table)",
+            "core.is_valid_python and processing._sources_equivalent are oracles of the model: their observed answers are "
+            "replayed (tables; the text is evaluated under both defaults for questions never asked)",
+            "the tokenizer's verdict on ignore comments (lines with a COMMENT token matching the regex) is an input of "
+            "the model, computed by the harness with CPython's tokenize; the model's ignore lines are compared with the "
+            "real core.has_ignore_comment asked about every physical line",
             "Uint63 primitive integers are used only to read case files (text_of_packed), never in a theorem"],
         unmodelled=[
             "processing.minimize_whitespace_line_differences (difflib): identity unless a whitespace-only line is "
             "added/removed; cases where it acted are judged by the property oracle only",
             "processing._substitute_original_strings/_fstrings: abstract function `restore` (hypothesis restore s s "
             "= s of T14.1 is checked on every source)",
-            "callable slots {{f(x)}} of format_template; ast-valued rewrites of _do_rewrite; tabs and non-ASCII "
-            "text (get_charnos is C13)"],
+            "callable slots {{f(x)}} of format_template; ast-valued rewrites of _do_rewrite and its unscheduled "
+            "(scheduled=False) refusals, which subn never reaches; a range beyond the end of the source; tabs, \\r and "
+            "non-ASCII text in the correspondence (oracle only; get_charnos is C13)"],
     )
     run.assumptions += [
         "the theorems are about SubstModel.v / ExprModel.v; the tie to pattern_matching.py / processing.py / "
@@ -1881,7 +1912,7 @@ def replay(path: str) -> int:
         if kind == "correspondence" and in_domain(*c[:3]):
             global PACKED
             PACKED = False
-            print("model  :", decode_texts(model_subn_detail(wd, g_subn_case(c, all_matches(mods, c[0], c[2]), rec))))
+            print("model  :", decode_texts(model_subn_detail(wd, g_subn_case(c, all_matches(mods, c[0], c[2]), rec, mods))))
     elif kind == "correspondence":
         p = wd / "replay_expr.v"
         p.write_text(EXPR_HEADER + f"Definition c : expr_case := {data['coq_case']}.\n"
